@@ -17,7 +17,7 @@ def cfg_label(cfg):
 
 def sig_of(cfg, **kw):
     d = dict(env=cfg["env"])
-    for k in ("preset", "cost_type", "scale", "start_depot", "reward_mode", "problem_mode", "speed", "vcap", "dist_mode", "prize_required", "dense"):
+    for k in ("preset", "cost_type", "scale", "start_depot", "reward_mode", "problem_mode", "speed", "vcap", "dist_mode", "prize_required", "dense", "stepwise", "check_mask"):
         if k in cfg:
             d[k] = cfg[k]
     d.update(kw)
@@ -311,6 +311,8 @@ def other_case(ctx, case, monitors):
     gen = torch.Generator().manual_seed(seed)
     names = other_choosers(cfg, B, seed)
     snap = None
+    if name in ("fjsp", "jssp") and cfg.get("stepwise"):
+        snap = ["reward", "lbs"]
     if name == "flp":
         snap = ["distances", "chosen"]
     elif name == "mcp":
@@ -389,6 +391,21 @@ def other_case(ctx, case, monitors):
                     ctx.violation(sig_of(cfg, q="reward", rule="makespan"), f"reward {got} != -makespan {-mk} of the reconstructed schedule", dict(row=b, inst=insts[b], actions=acts))
         if ep.reward_exc is not None:
             ctx.violation(sig_of(cfg, q="reward_raises"), f"get_reward raised {ep.reward_exc}", None)
+        if cfg.get("stepwise") and "C07" in monitors and ep.error is None and ep.states:
+            # step-wise reward mode: every step reports minus the change of the lower bound of the makespan, so along an episode the
+            # rewards telescope to -(makespan - initial lower bound); finished (padded) rows report 0
+            lb0 = ep.td0["lbs"].reshape(B, -1).max(-1).values
+            for b in range(B):
+                if fins[b] is None:
+                    continue
+                tot = sum(float(st["reward"].reshape(B, -1)[b, 0]) for st in ep.states)
+                mk_b = float(ep.td_final["finish_times"][b][~ep.td_final["pad_mask"][b]].max()) if "pad_mask" in ep.td_final.keys() else None
+                ctx.count("c07_stepwise_reward_sums")
+                if mk_b is not None and abs(tot + (mk_b - float(lb0[b]))) > 1e-3 * max(1.0, abs(mk_b)):
+                    ctx.violation(sig_of(cfg, q="reward", rule="stepwise_sum"), f"step-wise rewards sum to {tot}, expected -(makespan {mk_b} - initial lower bound {float(lb0[b])})", dict(row=b, inst=insts[b]))
+                    break
+        if cfg.get("stepwise"):
+            pass
         elif ep.reward is not None and all(f is not None for f in fins):
             # the documented way to ask for the reward of a finished state without an action sequence (the makespan is read
             # from the state): it must report the same makespan
